@@ -154,7 +154,7 @@ def shrink(prop, case, cls, deadline):
         return _fails_same(prop, c, cls) is not None
 
     ops_key = getattr(prop, "ops_key", "ops")
-    if isinstance(best.get(ops_key), list):
+    if isinstance(best.get(ops_key), list) and not best.get("no_ddmin"):
         n = 2
         while len(best[ops_key]) >= 2 and time.time() < deadline:
             ops = best[ops_key]
